@@ -53,13 +53,28 @@ def _eq(a: Dual, b: Dual):
     return _A.equal(a.a, b.a)
 
 
-def build(repo, fname, degree):
-    I = Interp(repo)
-    I.tolerant = True
+def build(repo, fname, degree, tolerant=False):
+    """Partial evaluation of a parent-element builder.  MeshInterp = tensoreval.Interp + numpy indexing / stacking / set functions /
+    vectorised index arithmetic (rules/C03_interp.py).  Strict by default: an un-modelled statement aborts the evaluation.  In tolerant
+    mode such a statement only makes its targets unknown; results obtained that way may confirm the specification but are not used to
+    refute it (a half-executed helper could have left a buffer in a state the real code never produces)."""
+    from .C03_interp import MeshInterp
+    I = MeshInterp(repo)
+    I.tolerant = tolerant
     I.special[f"{IM}:get_lobatto_nodes_1d"] = lobatto_special
     mod = repo.modules[IM]
     r = I.call(I.module_value(mod, fname), [degree], {})
     return r, I
+
+
+def build_weak(repo, fname, degree):
+    """(result, interpreter, weak): strict evaluation, or -- if that meets an un-modelled operation -- the tolerant one, flagged weak"""
+    try:
+        r, I = build(repo, fname, degree)
+        return r, I, False
+    except EvalError:
+        r, I = build(repo, fname, degree, tolerant=True)
+        return r, I, bool(I.swallowed)
 
 
 def check_2d(ctx, rule, fname, degrees):
@@ -70,7 +85,7 @@ def check_2d(ctx, rule, fname, degrees):
     for d in degrees:
         cons = f"{fname}[degree={d}]"
         try:
-            r, I = build(ctx.repo, fname, d)
+            r, I, weak = build_weak(ctx.repo, fname, d)
             coords = r.get("coordinates")
             vert = _ints(r.get("vertexNodes"))
             faces_flat = _ints(r.get("faceNodes"))
@@ -84,11 +99,12 @@ def check_2d(ctx, rule, fname, degrees):
         n = coords.shape[0]
         P = [(coords.data[2 * k], coords.data[2 * k + 1]) for k in range(n)]
         faces = [faces_flat[f * (d + 1):(f + 1) * (d + 1)] for f in range(3)] if len(faces_flat) == 3 * (d + 1) else None
-        results[d] = dict(n=n, vert=vert, faces=faces, interior=interior, P=P)
+        results[d] = dict(n=n, vert=vert, faces=faces, interior=interior, P=P, weak=weak)
         n_checked += 1
         # vertices
         okv = len(vert) == 3 and all(0 <= v < n for v in vert) and all(_eq(P[v][0], V[k][0]) and _eq(P[v][1], V[k][1]) for k, v in enumerate(vert))
-        ctx.decide(rule, okv, sc, None, construct=f"{cons}:vertices", detail=f"vertexNodes {vert} sit at (1,0), (0,1), (0,0)",
+        W = (lambda ok_: True if ok_ else (None if weak else False))     # a weak (tolerant) evaluation never refutes
+        ctx.decide(rule, W(okv), sc, None, construct=f"{cons}:vertices", detail=f"vertexNodes {vert} sit at (1,0), (0,1), (0,0)",
                    bad_detail=f"{fname}(degree={d}): vertexNodes = {vert} are not the nodes at (1,0), (0,1), (0,0) in this order "
                               f"(found {[(repr(P[v][0].a), repr(P[v][1].a)) for v in vert if 0 <= v < n]})")
         # faces
@@ -110,17 +126,17 @@ def check_2d(ctx, rule, fname, degrees):
                         break
                 if bad:
                     break
-        ctx.decide(rule, bad is None, sc, None, construct=f"{cons}:faces", detail=f"faceNodes {faces} follow each edge counter-clockwise at Lobatto spacing",
+        ctx.decide(rule, W(bad is None), sc, None, construct=f"{cons}:faces", detail=f"faceNodes {faces} follow each edge counter-clockwise at Lobatto spacing",
                    bad_detail=f"{fname}(degree={d}): {bad}; faceNodes = {faces}: edge nodes of higher-order meshes and edge integrals would be placed on the wrong nodes")
         # partition
         if faces is not None:
             onface = sorted(set(x for fc in faces for x in fc))
             okp = sorted(interior) == [k for k in range(n) if k not in onface] and len(set(interior)) == len(interior)
-            ctx.decide(rule, okp, sc, None, construct=f"{cons}:interior-is-complement", detail=f"interiorNodes {interior}; {n} nodes",
+            ctx.decide(rule, W(okp), sc, None, construct=f"{cons}:interior-is-complement", detail=f"interiorNodes {interior}; {n} nodes",
                        bad_detail=f"{fname}(degree={d}): interiorNodes = {interior} is not the complement of the face nodes {onface} among {n} nodes")
         # distinct nodes
         dup = [(i, j) for i in range(n) for j in range(i + 1, n) if _eq(P[i][0], P[j][0]) and _eq(P[i][1], P[j][1])]
-        ctx.decide(rule, not dup, sc, None, construct=f"{cons}:nodes-distinct", detail=f"{n} distinct nodal points",
+        ctx.decide(rule, W(not dup), sc, None, construct=f"{cons}:nodes-distinct", detail=f"{n} distinct nodal points",
                    bad_detail=f"{fname}(degree={d}): nodes {dup[:3]} coincide")
     return results
 
@@ -131,7 +147,7 @@ def check_1d(ctx, rule, degrees):
     for d in degrees:
         cons = f"{fname}[degree={d}]"
         try:
-            r, I = build(ctx.repo, fname, d)
+            r, I, weak = build_weak(ctx.repo, fname, d)
             coords = r.get("coordinates")
             vert = _ints(r.get("vertexNodes"))
             interior = _ints(r.get("interiorNodes"))
@@ -140,7 +156,7 @@ def check_1d(ctx, rule, degrees):
         except (EvalError, Raised, KeyError, IndexError, TypeError, AttributeError, ValueError) as ex:
             ctx.undecided(rule, sc, None, construct=cons, detail=f"cannot partially evaluate: {ex}")
             continue
-        ctx.decide(rule, ok, sc, None, construct=cons, detail=f"nodes at the Lobatto abscissae, vertices [0, {d}], interior 1..{d - 1}",
+        ctx.decide(rule, True if ok else (None if weak else False), sc, None, construct=cons, detail=f"nodes at the Lobatto abscissae, vertices [0, {d}], interior 1..{d - 1}",
                    bad_detail=f"{fname}(degree={d}): vertexNodes {vert}, interiorNodes {interior} do not describe the line element with Lobatto nodes 0..{d}")
 
 
@@ -158,7 +174,7 @@ def run(ctx, rule, degrees=(1, 2, 3, 4, 5)):
         onface0 = sorted(set(x for fc in r0["faces"] for x in fc))
         rank = {nd: k for k, nd in enumerate(onface0)}
         want = [[rank[x] for x in fc] for fc in r0["faces"]]
-        ctx.decide(rule, want == rb["faces"], sc, None, construct=f"bubble-vs-plain[degree={d}]:faces-are-renumbered-plain-faces",
+        ctx.decide(rule, True if want == rb["faces"] else (None if (rb["weak"] or r0["weak"]) else False), sc, None, construct=f"bubble-vs-plain[degree={d}]:faces-are-renumbered-plain-faces",
                    detail=f"faces {rb['faces']} = plain faces renumbered after dropping interior nodes",
                    bad_detail=f"degree {d}: bubble element faces {rb['faces']} differ from the plain element's faces renumbered compactly {want}")
     if len(base) < len(degrees) or len(bub) < 1:
